@@ -23,6 +23,9 @@ PEST_FILES = [
 ]
 
 HAND = [
+    # a leading choice operator is allowed at the start of EVERY expression: rule body, group, PUSH( ), and nowhere else
+    'r = { PUSH( | "a" | "b") }', 'r = { PUSH(|"a") ~ (| "b") }', 'r = { ( | "a" | "b")* }', 'r = { !( | "a") ~ &(|"b" | "c") }', 'r = { PUSH( | PUSH( | "a")) }', 'r = { #t = ( | "a") }',
+    'r = { PUSH( || "a") }', 'r = { "a" ~ | "b" }', 'r = { ("a" | | "b") }', 'r = { PUSH("a" | ) }', 'r = { ! | "a" }', 'r = { | }', 'r = { PUSH( | ) }', 'r = { "a" | ( | ) }',
     "", " ", "\n", "// c", "/* c */", "/* /* n */ */", "//! doc", "//! doc\n", "/// doc", "/// doc\nr = { a }", "r = { a } /// trailing", "r = { a }\n/// d\n/// e\n",
     "r = { a*? }", "r = { a * }", "r = { a {2} }", "r = { &!a }", "r = { !&a }", "r = { #t = !a* }", "r = { #t = a }", "r = { #_ = a }", "r = { #tag /*c*/ = a }",
     "r = { PEEK [..] }", "r = { PEEK[ -1 .. ] }", "r = { PEEK[-0..] }", "r = { PEEK[1xx2] }", "r = { PEEK[1...2] }", "r = { ^ \"abc\" }", "r = { ^\n\"abc\" }",
